@@ -30,7 +30,8 @@ type Expr struct {
 	Z    int64  `json:"z,omitempty"`
 	ID   int    `json:"id,omitempty"`
 	Op   string `json:"op,omitempty"`
-	A, B *Expr  `json:"a,omitempty"`
+	A    *Expr  `json:"a,omitempty"`
+	B    *Expr  `json:"b,omitempty"`
 }
 
 type Stmt struct {
